@@ -1,6 +1,24 @@
-import TornadoModel.C02.Spec
+/- C02 — property theorems (see docs/C02.md for the reading of each clause). -/
+import TornadoModel.C02.Lemmas
 namespace TornadoModel.C02
+open TornadoModel.C02.Spec
 
-theorem stub : crlf = [13, 10] := rfl
+/-- **chunk wire round trip**: for every list of chunks handed to a chunking connection (`_format_chunk` on each,
+    then `finish`'s terminator), the strict chunked reader returns exactly their concatenation and leaves
+    exactly the bytes that follow the terminator.  Empty chunks are skipped by the encoder, so they cannot
+    terminate the body early. -/
+theorem chunk_wire_roundtrip (chunks : List Bytes) (rest : Bytes) :
+    readChunked ((chunks.flatMap (encChunk true) ++ lastChunk ++ rest).length + 1)
+      (chunks.flatMap (encChunk true) ++ lastChunk ++ rest) = .ok (chunks.flatten, rest) := by
+  apply readChunked_encode
+  have := nonEmptyCount_le chunks
+  simp only [List.length_append]
+  omega
+
+/-- a non-chunking connection writes the chunk bytes unchanged -/
+theorem identity_coding (c : Bytes) : encChunk false c = c := by simp [encChunk]
+
+/-- `Content-Length` values written by `finish()` read back as the number they denote -/
+theorem content_length_text_roundtrip (n : Nat) : parseDec (toDec n) = some n := parseDec_toDec n
 
 end TornadoModel.C02
